@@ -63,6 +63,11 @@ Asked(cfg, worker, RX, pending) ==
   IF UsageError(cfg, worker, RX) \/ ~Active(cfg, worker, RX) \/ "short-report" \in Flags(cfg) THEN {}
   ELSE {c \in pending : Shown(cfg, c) /\ c \notin Flags(cfg) /\ "review" \in Flags(cfg)}
 
+\* unused persisted externals are removed at the end of the session (pytest_plugin.py:526-532)
+TrimsExternals(cfg, worker, RX) ==
+  /\ ~UsageError(cfg, worker, RX) /\ Active(cfg, worker, RX) /\ "short-report" \notin Flags(cfg)
+  /\ "trim" \in Flags(cfg)
+
 (***************************************************************************)
 (* What C04 promises, stated without reference to the mechanism: the       *)
 (* categories the user approved for this session.                          *)
